@@ -6,6 +6,7 @@ value has a term without the tested variable - `w_new - w_old` under a test of `
 and the accumulator (a residual, a running sum) is stale from then on."""
 from .core import RuleResult
 from .facts import fn_key, fn_loc, walk, children, strip, peel_refs, pat_bindings, Render
+from .facts import lit_float, lit_number
 
 ZERO_NAMES = {"zero", "neg_zero"}
 NORMS = {"norm_l2", "norm_l1", "norm", "norm_max", "abs", "sqrt", "dot"}        # zero iff the vector / number is
@@ -23,10 +24,7 @@ def _inits(fn):
 def _is_zero(c, e):
     e = peel_refs(e)
     if e.get("k") == "Lit":
-        try:
-            return float(str(e.get("v")).replace("_", "").rstrip("f3264iu8")) == 0.0
-        except ValueError:
-            return False
+        return lit_float(e.get("v")) == 0.0
     if e.get("k") == "Call" and strip(e["f"]).get("k") == "Path":
         return (c.dfn(strip(e["f"]).get("def")) or {}).get("name") in ZERO_NAMES
     return False
